@@ -69,12 +69,7 @@ class _RequestHandler:
                 # not reported as a JSONDecodeError. Treat them as such.
                 raise json.decoder.JSONDecodeError(format(e), data, 0)
             self.logger.debug("Delivering request")
-            try:
-                response = self.protocol.handle_request(request)
-            except RecursionError as e:
-                # A document nested just under the parser's limit can still
-                # be too deep to be handled (e.g. logged). Same treatment.
-                raise json.decoder.JSONDecodeError(format(e), data, 0)
+            response = self.protocol.handle_request(request)
             self.logger.debug("Got response: %s", response)
         except json.decoder.JSONDecodeError as e:
             self.logger.debug("JSON error: %s", e)
